@@ -28,7 +28,14 @@ def tproj(t, path):
     if k == "place":
         return ("place", t[1], t[2], tuple(t[3]) + path)
     if k == "call":
-        return ("call", t[1], t[2], tuple(t[3]) + path, t[4])
+        full = tuple(t[3]) + path
+        tag, args = t[1], t[2]
+        # payload normalisations that also apply when the projection is added later
+        if args and tuple(full[:2]) == ("v:Ok", "f:0") and tag in (("Option", "ok_or"), ("Option", "ok_or_else")):
+            return tproj(args[0], ("v:Some", "f:0") + full[2:])
+        if args and tuple(full[:2]) == ("v:Some", "f:0") and tag in (("Result", "err"), ("Result", "ok")):
+            return tproj(args[0], (("v:Err" if tag[1] == "err" else "v:Ok"), "f:0") + full[2:])
+        return ("call", t[1], t[2], full, t[4])
     if k == "agg":
         # project into the aggregate where possible
         step = path[0]
@@ -149,6 +156,9 @@ def tree(ctx, origin, depth=0, resolve_places=True):
         if tag in (("Result", "err"), ("Result", "ok")) and args and tuple(path[:2]) == ("v:Some", "f:0"):
             # res.err() is Some(e) exactly when res is Err(e): its payload is the Err payload
             return tproj(args[0], (("v:Err" if tag[1] == "err" else "v:Ok"), "f:0") + tuple(path[2:]))
+        if tag in (("Option", "ok_or"), ("Option", "ok_or_else")) and args and tuple(path[:2]) == ("v:Ok", "f:0"):
+            # opt.ok_or(e) is Ok(v) exactly when opt is Some(v)
+            return tproj(args[0], ("v:Some", "f:0") + tuple(path[2:]))
         if tag in UNWRAP_PAYLOAD and args:
             # the value of opt.unwrap() / res.expect(..) is the Some / Ok payload (it panics otherwise)
             return tproj(args[0], UNWRAP_PAYLOAD[tag] + tuple(path))
@@ -422,7 +432,8 @@ def guards(ctx, bb):
                 # multiple arms may share a target
                 if edge_dominates_multi(body, d, tgt, bb, [a for a in arms if a[1] == tgt], t["otherwise"]):
                     hits.append(val)
-            cond = collapse_phi(ctx, operand_tree(ctx, t["discr"]))
+            _FACTS[0] = ctx.body.facts
+            cond = simplify_cond(ctx, collapse_phi(ctx, operand_tree(ctx, t["discr"])))
             dty = t.get("discr_ty", "bool")
             fl = _flag_guard(ctx, d, t, hits, arms) if dty == "bool" else None
             if fl is not None:
@@ -460,6 +471,23 @@ def _boolish(t):
     return True
 
 
+_FACTS = [None]
+
+
+def simplify_cond(ctx, cond):
+    """a branch condition that is a projection out of a combinator result (`opt.map(|i| (i, a == b))`
+    matched as `Some((i, true))`) is the closure's own expression"""
+    if cond[0] == "call" and cond[3] and cond[1][0] in ("Option", "Result", "bool"):
+        alts = [x for x in expand(ctx.body.facts, cond) if x != NONE]
+        if len(alts) == 1 and alts[0] != cond:
+            return alts[0]
+    if cond[0] == "un" and cond[1] == "Not":
+        inner = simplify_cond(ctx, cond[2])
+        if inner is not cond[2]:
+            return ("un", "Not", inner)
+    return cond
+
+
 def normalise_guard(cond, value, dty="bool"):
     """turn (cond, value) into (op, a, b) comparison facts where possible: returns list of
     ('Lt'|'Le'|'Eq'|'Ne'|'Ge'|'Gt', a_tree, b_tree) or ('truthy', tree, bool)"""
@@ -472,7 +500,22 @@ def normalise_guard(cond, value, dty="bool"):
                 return [("Ge", inner[2][0], inner[2][1]), ("variant", inner, value)]
             if none:
                 return [("Lt", inner[2][0], inner[2][1]), ("variant", inner, value)]
-        return [("variant", cond[1], value)]
+        out = [("variant", cond[1], value)]
+        # `c.then(|| ..)` / `c.then_some(..)` (possibly `.flatten()`ed) is Some only when c held
+        x = inner
+        while x[0] == "call" and x[1] in (("Option", "flatten"),) and x[2]:
+            x = x[2][0]
+        some = value == "1" or (isinstance(value, tuple) and value[0] == "not" and "0" in value[1])
+        if x[0] == "call" and x[1] in (("bool", "then"), ("bool", "then_some")) and x[2] and not x[3]:
+            if some:
+                out.extend(normalise_guard(x[2][0], "1", "bool"))
+        if x[0] == "call" and x[1] == ("Option", "filter") and len(x[2]) == 2 and not x[3] and some and _FACTS[0] is not None:
+            # opt.filter(p) is Some(v) only when p(&v) held
+            pay = tproj(x[2][0], ("v:Some", "f:0"))
+            rs = apply_fn(_FACTS[0], x[2][1], [pay])
+            if len(rs) == 1:
+                out.extend(normalise_guard(next(iter(rs)), "1", "bool"))
+        return out
     truth = None
     if value == "0":
         truth = False
@@ -507,6 +550,41 @@ def normalise_guard(cond, value, dty="bool"):
 
 OPTION_CLOSURE_VARIANT = {("Option", "or_else"): "0", ("Option", "unwrap_or_else"): "0",
                           ("Option", "map"): "1", ("Option", "and_then"): "1"}
+
+
+def edge_facts(ctx, s):
+    """[(target block, [facts])] for the outgoing edges of switch block s: what taking that very
+    edge says about the discriminant (a fact that holds on an edge into a join block is held by no
+    block, so path rules that avoid `good` blocks need the edges as well)"""
+    body = ctx.body
+    t = body.term(s)
+    if t["k"] != "switch":
+        return []
+    _FACTS[0] = body.facts
+    cond = simplify_cond(ctx, collapse_phi(ctx, operand_tree(ctx, t["discr"])))
+    dty = t.get("discr_ty", "bool")
+    out = []
+    for (val, tgt) in t["arms"]:
+        out.append((tgt, [f + (s,) for f in normalise_guard(cond, val, dty)]))
+    if t["otherwise"] is not None:
+        out.append((t["otherwise"], [f + (s,) for f in normalise_guard(cond, ("not", tuple(a[0] for a in t["arms"])), dty)]))
+    return out
+
+
+def reachable_avoiding(body, frm, bad_blocks, bad_edges):
+    """blocks reachable from frm without entering bad_blocks and without taking bad_edges"""
+    seen = set()
+    st = [frm] if frm not in bad_blocks else []
+    while st:
+        x = st.pop()
+        if x in seen:
+            continue
+        seen.add(x)
+        for y in body.succs(x):
+            if y in bad_blocks or (x, y) in bad_edges:
+                continue
+            st.append(y)
+    return seen
 
 
 def facts_at(ctx, bb, _depth=0):
@@ -968,6 +1046,15 @@ def expand(facts, t, depth=0):
             for r in apply_fn(facts, a[2], [tproj(x, pay)], depth + 1):
                 out.add(r)
         return out
+    if tag == ("Option", "filter") and len(a) == 2:
+        # Some(x) when the predicate holds, None otherwise
+        out = {NONE}
+        for x in expand(facts, a[0], depth + 1):
+            if x != NONE:
+                out.add(x)
+        return out
+    if tag in (("Option", "insert"), ("Option", "get_or_insert")) and len(a) == 2:
+        return {a[1]}  # `*opt.insert(v)` is v
     if tag == ("bool", "then") and len(a) == 2:
         out = {NONE}
         for r in apply_fn(facts, a[1], [], depth + 1):
